@@ -5,8 +5,10 @@
   that the model-side equalities are executed on every scenario and not only proved:
     "ledger": {"evs":[{"session","delta","gain","sum_all","sum_interval"}], "peak_spec", "sum_delivered",
                "integral", "vacant_nonzero"}
+  With `"rerun"` in the request: two simulations over the same EV objects (see `handle`).
 -/
 import AcnModel.WireSim
+import AcnModel.Rerun
 import AcnProofs.Lemmas.LedgerExec
 open Lean Acn Acn.Wire Acn.EventCore Acn.Sim Acn.LedgerX
 
@@ -35,11 +37,24 @@ def ledgerJson (cfg : Sim.Cfg Float) (s : Sim.State Float) : Json :=
               ("sum_delivered", jF (sumDel - sumDel0)), ("integral", jF (integralX cfg s.rates t)),
               ("vacant_nonzero", jN bad)]
 
+def answer (cfg : Sim.Cfg Float) (r : Sim.State Float × Option Err) : Json :=
+  (jResult cfg r).setObjVal! "ledger" (ledgerJson cfg r.1)
+
+/-- optional `"rerun": {"sched": <sched>}`: when the first run completes, the same EVs go through `EV.reset()`
+    and a second simulation (`AcnModel/Rerun.lean`); the answer then describes run 2 and carries run 1 under
+    `"run1"` -/
 def handle (j : Json) : Except String Json := do
   let cfg ← parseSimCfg j
   let sched ← parseSched (← j.getObjVal? "sched")
-  let fuel := fuelFor cfg.core
-  let r := Sim.run cfg sched fuel (Sim.init cfg)
-  pure ((jResult cfg r).setObjVal! "ledger" (ledgerJson cfg r.1))
+  let r := Sim.run cfg sched (fuelFor cfg.core) (Sim.init cfg)
+  match j.getObjVal? "rerun" with
+  | .error _ => pure (answer cfg r)
+  | .ok rr =>
+    if r.2.isSome then pure (answer cfg r)
+    else
+      let sched2 ← parseSched (← rr.getObjVal? "sched")
+      let cfg2 := Rerun.rerunCfg cfg r.1
+      let r2 := Sim.run cfg2 sched2 (fuelFor cfg2.core) (Sim.init cfg2)
+      pure ((answer cfg2 r2).setObjVal! "run1" (answer cfg r))
 
 def main : IO Unit := runDriver handle
